@@ -1,6 +1,12 @@
 """C01 - every reported instance count and frequency is exact."""
-from checks import stage_check
+from checks import stage_check, step_check
 
 
 def main(tier, t0):
-    return stage_check.main("C01", tier, t0, explanation="per path: every printed count token equals the row-level oracle count (z3 Int disequality unsat) and every ratio is count/N within 1e-7 and <= 100 (table query over the counters).")
+    tasks = stage_check.tasks_for("C01", tier) + step_check.tasks("C01", tier)
+    sm = step_check.meta("C01")
+    return stage_check.main("C01", tier, t0, tasks=tasks, extra_meta=dict(functions_encoded=sm["functions_encoded"], bounds=sm["bounds"], assumptions=sm["assumptions"]),
+                            explanation="(b) H-STAGE: per path every printed count token equals the row-level oracle count (z3 Int disequality unsat) and every ratio is count/N within 1e-7 and <= 100 "
+                                        "(table query over the counters). (a) H-STEP: each transition of the feature-counting pass (_annotate_target_subject/_object, class aggregation in one and "
+                                        "two directions) from an arbitrary pre-state with symbolic counters changes exactly the documented cells by one; with the instance-tracker steps of C10 this "
+                                        "gives by induction 'counter = number of matching triples / instances'.")
